@@ -27,6 +27,7 @@ func reg() []*entry {
 }
 
 func run(c *core.Case) {
+	firstUseOnce.Do(func() { firstUse(c) })
 	es := reg()
 	e := es[c.Index%len(es)]
 	k := c.Index / len(es)
@@ -76,7 +77,7 @@ func Prop() *core.Prop {
 	es := reg()
 	var names []string
 	req := []string{"law_W_checked", "law_A_checked", "law_F_checked", "law_R_checked", "law_S_documents", "canonical_values", "noncanonical_values",
-		"documents_accepted", "documents_rejected", "overwrite_law_checked", "generations_checked", "durations_with_subsecond_part", "interleaved_reader_cases", "interleaved_reader_pairs", "concurrent_cases", "concurrent_encodes", "concurrent_cases_with_overlapping_goroutines", "times_with_second_granular_offset", "enum_out_of_range_values", "slot_headers_with_case_variant_keys", "alias_cases", "law_I_encode_twice", "alias_siblings_compared", "alias_readonly_ops_compared", "setters_after_decode", "setters_after_decode_fieldless_form", "form_setters_after_decode", "form_sets_after_decode", "form_submissions_after_decode", "reused_target_decodes", "reused_target_sequences", "reused_target_accepted", "reused_target_compared_with_fresh", "form_programs", "form_sets", "form_submissions", "form_submitted_values_compared"}
+		"documents_accepted", "documents_rejected", "overwrite_law_checked", "generations_checked", "durations_with_subsecond_part", "interleaved_reader_cases", "interleaved_reader_pairs", "concurrent_cases", "concurrent_encodes", "first_use_bursts", "first_use_documents_decoded_concurrently", "concurrent_cases_with_overlapping_goroutines", "times_with_second_granular_offset", "enum_out_of_range_values", "slot_headers_with_case_variant_keys", "alias_cases", "law_I_encode_twice", "alias_siblings_compared", "alias_readonly_ops_compared", "setters_after_decode", "setters_after_decode_fieldless_form", "form_setters_after_decode", "form_sets_after_decode", "form_submissions_after_decode", "reused_target_decodes", "reused_target_sequences", "reused_target_accepted", "reused_target_compared_with_fresh", "form_programs", "form_sets", "form_submissions", "form_submitted_values_compared"}
 	for _, e := range es {
 		names = append(names, e.name)
 		req = append(req, "values:"+e.name, "encoded:"+e.name)
